@@ -3,7 +3,19 @@ C04 — Get returns exactly the addressed message, with a stable error taxonomy.
 -/
 import Klev.Proofs.IndexSearch
 import Klev.Proofs.SegSearch
+import Klev.Proofs.GetOK
 namespace Klev.C04
+
+/-- **Refinement.** On every log state satisfying the invariant, for every offset, `Log.get`
+returns what the L0 relation `GetOK` says: the live message with exactly that offset;
+`ErrNotFound` for an assigned offset whose message is gone (hole at a segment start, in the
+middle, deleted tail of a reader segment, before the first segment); `ErrInvalidOffset`
+for an offset not assigned yet; `OffsetOldest` / `OffsetNewest` the first / last live
+message (also when the head segment is empty), `ErrInvalidOffset` on an empty log; other
+negative offsets fail. -/
+theorem get_ok (l : Log) (hinv : Inv l) (off : Int) :
+    Spec.GetOK (abs l) off (l.get off).2 :=
+  Klev.get_ok l hinv off
 
 /-- The exact-match search of `index.Get`, for every sorted index and every offset. -/
 theorem index_get_spec (items : List Item) (off : Int) (hs : SortedOff items) :
@@ -23,5 +35,6 @@ example : Index.get [⟨1, 8, 0, 0⟩, ⟨3, 50, 0, 0⟩, ⟨5, 90, 0, 0⟩, ⟨
 
 end Klev.C04
 
+#print axioms Klev.C04.get_ok
 #print axioms Klev.C04.index_get_spec
 #print axioms Klev.C04.segment_get_spec
